@@ -62,25 +62,27 @@ def battery(ef):
     return n
 
 
-def try_open(data, limit=5.0):
-    """('ok'|'elferror'|'other'|'timeout', detail)"""
+def try_open(data, limit=30.0):
+    """('ok'|'elferror'|'other'|'timeout', detail).  The limit is CPU time of this process (ITIMER_VIRTUAL), not wall-clock
+    time: a loop that does not terminate burns CPU and is stopped, while a slow but terminating enumeration (65535 program
+    headers announced by a corrupted count: a second or two of CPU) does not flip the verdict on a loaded machine"""
     from elftools.elf.elffile import ELFFile
     from elftools.common.exceptions import ELFError
-    prev = signal.signal(signal.SIGALRM, _alarm)
-    signal.setitimer(signal.ITIMER_REAL, limit)
+    prev = signal.signal(signal.SIGVTALRM, _alarm)
+    signal.setitimer(signal.ITIMER_VIRTUAL, limit)
     try:
         try:
             ef = ELFFile(io.BytesIO(data))
         except ELFError:
             return 'elferror', None, None
         except _Timeout:
-            return 'timeout', 'constructor did not return within %.0f s' % limit, None
+            return 'timeout', 'constructor did not return within %.0f s of CPU time' % limit, None
         except Exception as e:
             return 'other', 'ELFFile() raised %s: %s' % (type(e).__name__, e), None
         try:
             battery(ef)
         except _Timeout:
-            return 'ok', None, 'enumeration battery did not terminate within %.0f s' % limit
+            return 'ok', None, 'enumeration battery did not terminate within %.0f s of CPU time' % limit
         except RecursionError as e:
             return 'ok', None, 'enumeration battery exhausted the stack: %s' % e
         except MemoryError as e:
@@ -89,8 +91,8 @@ def try_open(data, limit=5.0):
             pass            # any exception is a permitted way to stop enumerating
         return 'ok', None, None
     finally:
-        signal.setitimer(signal.ITIMER_REAL, 0)
-        signal.signal(signal.SIGALRM, prev)
+        signal.setitimer(signal.ITIMER_VIRTUAL, 0)
+        signal.signal(signal.SIGVTALRM, prev)
 
 
 def faults(seed, rng, tier):
@@ -199,23 +201,23 @@ def repeat_fuzz(tier, seed):
         data = open(os.path.join(d, name), 'rb').read()
         bad = None
         cases = 0
-        prev = signal.signal(signal.SIGALRM, _alarm)
+        prev = signal.signal(signal.SIGVTALRM, _alarm)
         try:
             for what, mutated in faults(data, rng, tier):
                 cases += 1
-                signal.setitimer(signal.ITIMER_REAL, 5.0)
+                signal.setitimer(signal.ITIMER_VIRTUAL, 20.0)      # CPU time: a case that is only slow is skipped, never a verdict
                 try:
                     r = repeat_queries(mutated)
                 except _Timeout:
                     r = None
                 finally:
-                    signal.setitimer(signal.ITIMER_REAL, 0)
+                    signal.setitimer(signal.ITIMER_VIRTUAL, 0)
                 if r:
                     bad = dict(confirmed=True, how='the same query issued twice on ELFFile(io.BytesIO(mutated seed))',
                                input='%s: %s' % (name, what), observed=r, expected='the same outcome both times')
                     break
         finally:
-            signal.signal(signal.SIGALRM, prev)
+            signal.signal(signal.SIGVTALRM, prev)
         obs.append(dict(name='bounded:elf/elffile.py+sections.py:repeated-query[%s]' % name, kind='bounded',
                         verdict='refuted' if bad else 'proved', backend='ground-eval(seeded fault injection, %d cases)' % cases, time=0.0,
                         bounded=True, detail=bad and bad['observed'], native=bad))
